@@ -641,3 +641,14 @@ Proof.
     cbn [deserialize]; [unfold dec_coll | unfold dec_coll | unfold dec_map];
     rewrite (rd_fixed_app _ _ _ HL), HU; cbn [obind]; rewrite ?dec_items_unfold, ?dec_pairs_unfold; reflexivity.
 Qed.
+
+(* ------------------------------------------------------------------ decoded maps can be read back (OrderedMapSerializedKey) *)
+Theorem map_keys_found : forall pv kt k kb,
+  wf_type kt = true -> py_repr kt k = true -> k <> VNull -> norm kt k = k ->
+  to_binary (inner pv) kt k = Some kb ->
+  exists k', from_binary (inner pv) kt kb = Some k' /\ key_lookup_bytes pv kt k' = Some kb.
+Proof.
+  intros pv kt k kb W Y Hn N H. exists (norm kt k). split.
+  - apply roundtrip_to_from; assumption.
+  - rewrite N. unfold key_lookup_bytes. rewrite <- to_binary_nonnull by assumption. exact H.
+Qed.
